@@ -115,7 +115,7 @@ def plan_world(rng, idx):
                                    p_inverted_attr=r.pick([0.0, 0.1, 0.3]),
                                    var_like_constants=r.pick([0.0, 0.2, 0.4]))
         c = gcontent.gen_content(r, spec, ccfg)
-        kind = r.weighted([('decoded', 5), ('handbuilt', 2), ('transformed', 2), ('stale', 2), ('dup', 1)])
+        kind = r.weighted([('decoded', 5), ('handbuilt', 2), ('transformed', 2), ('stale', 2), ('dup', 1), ('merged', 1)])
         item = {'kind': kind, 'model': mi, 'meta': gtext.gen_metadata(r.sub('meta'), p_any=0.5)}
         if kind == 'handbuilt':
             triples = [list(t) for t in c['triples']]
@@ -123,6 +123,19 @@ def plan_world(rng, idx):
             item['content'] = {'top': c['top'], 'triples': triples}
         else:
             item['tree'] = gcontent.layout_tree(r.sub('layout'), c, spec, gcontent.LayoutCfg(p_align=r.pick([0, 0.3, 0.6])))
+            if kind == 'merged' and spec.get('kind') in ('amr', 'custom'):
+                # a relation that is present both plainly and as a collapsible reified node: dereifying maps the node
+                # onto a triple the graph already has (the coincidence behind known finding F17b)
+                from ..ref.roles import model_ref as _mref
+                reifs = [rf for rf in _mref(spec).reifications if not rf[0].endswith('-of')]
+                if reifs:
+                    role_, concept_, srole_, trole_ = reifs[r.sub('merged').randrange(len(reifs))]
+                    top_ = item['tree']
+                    used = {n_ for n_ in str(top_).replace('[', ' ').replace(']', ' ').replace(',', ' ').replace("'", ' ').split()}
+                    fresh_ = next(v_ for v_ in ('h9', 'h8', 'q9', 'm9') if v_ not in used)
+                    const_ = r.sub('merged2').pick(['7', 'imperative', '"x y"'])
+                    top_[1].append([role_ + r.sub('merged3').pick(['', '~e.3']), const_])
+                    top_[1].append([srole_ + '-of', [fresh_, [['/', concept_], [trole_, const_]]]])
             if kind == 'dup':
                 # the same triple stated twice with different epigraph data (not well-formed, but purity and
                 # determinism are demanded of every call whatever it is given)
